@@ -139,13 +139,22 @@ Loop ==
   /\ LET R == LoopRec(st, 1, <<>>) IN
      /\ st' = R.s
      /\ hist' = Append(hist, [a |-> "loop", o |-> Obs(R.s, 0) @@ [cb |-> R.log]])
+(* event_reinit (as after a fork; also legal without one): every added signal event stays
+   registered, the mechanism's kernel objects are recreated, the saved prior dispositions survive *)
+Reinit ==
+  /\ ~st.freed /\ "reinit" \in Acts
+  \* a delivery still in flight through the old socketpair is not carried over (reinit is meant for a
+  \* freshly forked child, where such a delivery belongs to the parent): only with nothing pending
+  /\ \A s \in Sigs : st.pend[s] = 0
+  /\ st' = st
+  /\ hist' = Append(hist, [a |-> "reinit", o |-> Obs(st, 0)])
 BaseFree ==
   /\ ~st.freed /\ "basefree" \in Acts
   /\ st' = [st EXCEPT !.freed = TRUE, !.added = [e \in Ev |-> FALSE], !.lst = [s \in Sigs |-> <<>>]]
   /\ hist' = Append(hist, [a |-> "basefree", o |-> [r |-> 0, dA |-> Disp(st')["A"], dB |-> Disp(st')["B"]]])
 
 Init == st = InitSt /\ hist = <<>>
-Next == Api \/ SetScript \/ Loop \/ BaseFree
+Next == Api \/ SetScript \/ Loop \/ Reinit \/ BaseFree
 Spec == Init /\ [][Next]_vars
 
 (* invariants of the model *)
